@@ -395,6 +395,20 @@ def run(chk, repo, tier):
     # ---- R06.6 ----------------------------------------------------------
     c01.linear_forms(chk, repo, rule='R06.6', rule_try='R06.6')
     # ---- R06.7 the wrapper's delegate enforces the wrapper's own range --------
-    from . import c05
-    c05.check_wrapper(chk, repo, rule_delegate='R06.7')
+    setup = repo.func(INC, 'ThermochemIncomplete._setup_correlation')
+    built = []
+    for p in sym.summarize(setup):
+        for e in p.stores():
+            if e[1] == A('_correlation'):
+                built.append(e[2])
+    chk.need('R06.7', len(built), 1, 'constructions of the delegate')
+    for v in built:
+        ok = (is_call(v) and v[1] == ('name', 'ThermochemRawData')
+              and len(v[2]) == 6 and not v[3]
+              and v[2][5] in (('call', A('get_range'), (), ()), A('range')))
+        chk.ob('R06.7', ok, INC, setup, key='delegate-range',
+               what='the table correlation the wrapper delegates to is built '
+                    'with the wrapper\'s own range (so it refuses a table or '
+                    'T_ref outside it and checks every T against it)',
+               found=show(v)[:200])
 
